@@ -13,6 +13,7 @@ import (
 	"github.com/AliceO2Group/Control/core/task/channel"
 	"github.com/AliceO2Group/Control/core/workflow"
 	"verif/harness/internal/simcore"
+	"github.com/sirupsen/logrus"
 )
 
 const wf = `name: probe
@@ -85,13 +86,13 @@ func main() {
 		Workflows:   map[string]string{"probe": wf},
 		TaskClasses: map[string]string{"cA": cA, "cB": cB},
 		Agents:      nil,
-		Quiet:       os.Getenv("SIM_VERBOSE") == "",
+		Quiet:       os.Getenv("SIM_VERBOSE") == "", Settings: map[string]interface{}{"veryVerbose": true},
 	})
 	if err != nil {
 		fmt.Println("ERR", err)
 		os.Exit(1)
 	}
-	t0 := time.Now()
+	if os.Getenv("SIM_VERBOSE") != "" { logrus.SetLevel(logrus.TraceLevel) }; t0 := time.Now()
 	envId := uid.New()
 	pa := workflow.NewParentAdapter(
 		func() uid.ID { return envId },
